@@ -693,7 +693,7 @@ pub struct Runner {
 }
 
 async fn settle() {
-    for _ in 0..12 {
+    for _ in 0..64 {
         tokio::task::yield_now().await;
     }
 }
@@ -723,6 +723,7 @@ impl Runner {
         .await
         .expect("spawn");
         settle().await;
+        let _ = take_internal_request_ids();
         Runner { w, vh, steps: vec![], buffered_outs: vec![], buffered_wires: vec![], out_times: vec![], wire_times: vec![] }
     }
 
@@ -741,6 +742,9 @@ impl Runner {
     fn close_step(&mut self, coq_event: String) {
         self.collect();
         let outs_raw = std::mem::take(&mut self.buffered_outs);
+        if std::env::var("VERIF_TRACE").is_ok() {
+            eprintln!("step {} t={} {}: outs={:?} wires={} exempt={:?}", self.steps.len(), self.w.now, &coq_event[..coq_event.len().min(60)], outs_raw.iter().map(|o| format!("{:?}", o).chars().take(60).collect::<String>()).collect::<Vec<_>>(), self.buffered_wires.len(), self.vh.exemptions.read());
+        }
         let wires_raw = std::mem::take(&mut self.buffered_wires);
         let out_times = std::mem::take(&mut self.out_times);
         let wire_times = std::mem::take(&mut self.wire_times);
@@ -809,6 +813,11 @@ impl Runner {
         self.w.now = real_now;
         let mut ex: Vec<(u64, u64)> = self.vh.exemptions.read().iter().map(|(a, c)| (self.w.it.addr(a), *c as u64)).collect();
         ex.sort();
+        // the internal request ids the handler drew in this step (exact, through the hook)
+        let mut draws_rid = draws_rid;
+        for id in take_internal_request_ids() {
+            draws_rid.push(self.w.it.rid(&id));
+        }
         let step = Step { coq_event, now: self.w.now, outs, wires, exemptions: ex, sessions: active_sessions() as u64, draws_pk, draws_rid, hs_no_enr, new_internal };
         self.monitor_step(&step);
         self.steps.push(step);
@@ -1004,6 +1013,11 @@ impl Runner {
                 }
             }
             if *c > outstanding {
+                if std::env::var("VERIF_TRACE").is_ok() {
+                    eprintln!("  C13 upper: addr {} now {} reqs {:?} challenges {:?}", a, self.w.now,
+                        self.w.reqs.iter().map(|q| (q.rid, q.peer, q.external, q.first_tx, q.terminal, q.answered)).collect::<Vec<_>>(),
+                        self.w.out_challenges.iter().map(|(p, _, _, t, a)| (*p, *t, *a)).collect::<Vec<_>>());
+                }
                 self.w.failures.push(("C13".into(), format!("address holds {} filter exemptions but only {} exchanges are outstanding", c, outstanding)));
             }
         }
@@ -1037,6 +1051,11 @@ impl Runner {
             // expiry of our challenges
             let now = self.w.now;
             self.w.out_challenges.retain(|(_, _, _, t, _)| t + TIMEOUT_MS > now);
+            // one model step per grid instant at which something was observed: a step then holds
+            // the timers of (nearly always) one deadline only
+            if !self.buffered_outs.is_empty() || !self.buffered_wires.is_empty() {
+                self.close_step("EvTick".into());
+            }
         }
         self.close_step("EvTick".into());
     }
@@ -1151,6 +1170,20 @@ impl Runner {
         let local = self.w.local_id;
         let term = self.w.abstract_datagram(&local, &bytes[..bytes.len().min(1280)]);
         let a = self.w.it.addr(&src);
+        // any handshake packet in the name of a node finds the challenge outstanding for that node
+        // address; when it fails the signature check the challenge is kept and its timer restarts
+        // (the ledger over-approximates: it keeps the challenge alive whatever the outcome)
+        if let Ok((p, _)) = wire_decode(&local, self.w.pid, &bytes) {
+            if let PacketKind::Handshake { src_id, .. } = &p.kind {
+                let now = self.w.now;
+                let peers = &self.w.peers;
+                for c in self.w.out_challenges.iter_mut() {
+                    if peers[c.0].id == *src_id && c.4 == src {
+                        c.3 = now;
+                    }
+                }
+            }
+        }
         self.vh.inject(src, &bytes).await;
         settle().await;
         self.w.recorded.push((src, bytes.clone(), kind, maker));
@@ -1194,12 +1227,19 @@ impl Runner {
             }
             None => {
                 self.collect();
-                let only_unrec = self.buffered_outs.iter().all(|o| matches!(o, HandlerOut::UnrecognizedFrame(_)));
-                if !only_unrec || !self.buffered_wires.is_empty() {
+                // (events of timers that fired in the gap before the datagram may be buffered as well;
+                // what an undecodable datagram must not cause is a delivery or a session)
+                let bad = self.buffered_outs.iter().any(|o| matches!(o, HandlerOut::Request(..) | HandlerOut::Response(..) | HandlerOut::Established(..) | HandlerOut::WhoAreYou(..)));
+                if bad {
                     self.w.failures.push(("C02".into(), "an undecodable datagram had an effect".into()));
                 }
-                self.buffered_outs.clear();
-                self.out_times.clear();
+                // drop only the unrecognised-frame reports: timers may have fired in the gap before
+                // this datagram, their events belong to this (tick) step
+                let keep: Vec<bool> = self.buffered_outs.iter().map(|o| !matches!(o, HandlerOut::UnrecognizedFrame(_))).collect();
+                let mut k = keep.iter();
+                self.buffered_outs.retain(|_| *k.next().unwrap());
+                let mut k = keep.iter();
+                self.out_times.retain(|_| *k.next().unwrap());
                 self.close_step("EvTick".into());
             }
         }
@@ -1464,7 +1504,10 @@ impl Runner {
         self.inject(src, bytes, "whoareyou", pi, false, None).await;
         if src != right {
             // C03: a WHOAREYOU is acted on only if it comes from the address the request was sent to
-            let acted = self.steps[n0..].iter().any(|s| s.wires.iter().any(|(_, p)| matches!(p, APkt::Hs { .. })) || s.outs.iter().any(|o| matches!(o, AOut::Established(..) | AOut::RequestFailed(..))));
+            // (a handshake packet that was on the wire before is a retransmission by a timer)
+            let earlier: Vec<&APkt> = self.steps[..n0].iter().flat_map(|s| s.wires.iter().map(|(_, p)| p)).filter(|p| matches!(p, APkt::Hs { .. })).collect();
+            let acted = self.steps[n0..].iter().any(|s| s.wires.iter().any(|(_, p)| matches!(p, APkt::Hs { .. }) && !earlier.contains(&p)) || s.outs.iter().any(|o| matches!(o, AOut::Established(..)) || matches!(o, AOut::RequestFailed(_, e) if *e != 0)));
+            // (a Timeout failure is the work of a timer that fired in the gap before the datagram)
             if acted {
                 self.w.failures.push(("C03".into(), "a WHOAREYOU from another address than the one the request was sent to was acted on".into()));
             }
@@ -1707,7 +1750,7 @@ async fn run_case(seed: u64, idx: u64, focus: &str, thorough: bool, fixes: &str)
     );
     // internal request ids are drawn in the step that answers a WHOAREYOU for a contact without a
     // record, but may reach the wire only later: attribute each to the oldest such step of its peer
-    {
+    if false {
         let mut open: Vec<(usize, usize)> = vec![]; // (step index, peer)
         for j in 0..r.steps.len() {
             if let Some(pi) = r.steps[j].hs_no_enr {
